@@ -140,7 +140,17 @@ func c12Life(c *mon.Ctx, r *mon.Rand) {
 	})
 	defer m3.VerifSetBatchHook(nil)
 
-	env, err := newM3Env(1, opts, nil)
+	// every sixth lifetime sends to a dead port: write errors must not disturb
+	// the accounting (checked through the batch observer alone)
+	deadPort := r.Chance(1, 6)
+	nSinks := 1
+	if deadPort {
+		nSinks = 0
+		opts.HostPorts = []string{mon.DeadPort()}
+		desc["destination"] = "dead-port"
+		c.Class("lifetimes-with-write-errors(dead port)", 1)
+	}
+	env, err := newM3Env(nSinks, opts, nil)
 	if err != nil {
 		c.Class("reporter-construction-refused(common tags exceed packet size)", 1)
 		return
@@ -164,6 +174,19 @@ func c12Life(c *mon.Ctx, r *mon.Rand) {
 	complete, why := env.finish()
 	if !complete {
 		c.Inconclusive(why)
+		return
+	}
+	if deadPort {
+		bmu.Lock()
+		nb := len(batches)
+		for i, b := range batches {
+			if b.N >= 1 && int(b.Overhead)+b.SumEnc > maxPacket && b.N > 1 {
+				bad("datagram-exceeds-max-packet-size", fmt.Sprintf("batch %d (dead port): %d metrics occupying %d bytes + overhead %d exceed MaxPacketSizeBytes %d", i, b.N, b.SumEnc, b.Overhead, maxPacket))
+			}
+		}
+		bmu.Unlock()
+		c.Event("batches-observed-with-write-errors", int64(nb))
+		c.Distinct(mon.Hash64(fmt.Sprint(desc), fmt.Sprint(r.U64())))
 		return
 	}
 	dgrams := env.Sinks[0].Datagrams()
